@@ -15,10 +15,30 @@ remaining boundary carries an uncoalescable mark or is a pristine initial grain 
 marks and `grain = units` the single initial run is restored exactly (`free_all_restores_single_run`).
 
 **Concrete** (`Mmtk.FreeList`, the table with its masks; exact differential against both
-implementations): entry-level lemmas are proved here (`enc`/`dec`, link and size fields survive the
-flag updates).  The whole-history refinement `history_refines` (under the table invariant `WF`, each
-concrete op returns what `Runs.Pre` allows and commutes with the abstraction) is **not** proved;
-target statement at the end of the file.
+implementations): the refinement to `Mmtk.Runs` is **proved** (second half of this file; lemmas in
+`Lemmas/FreeList{Bits,Tab,Links,Rel,Split,Alloc,Free}.lean` and `Lemmas/RunsChar.lean`).  `Rel t a L`
+is the table invariant + abstraction relation (sentinels, MULTI/size entries at both ends of every
+run, FREE flag, uncoalescable bits, one well-formed circular doubly-linked list per head holding
+exactly the free runs of that head — ghost lists `L`); `Abs H t a := t.heads = H ∧ ∃ L, Rel t a L`,
+`WF H t := ∃ a, Abs H t a`.  For every operation the protocol `Runs.Pre` allows, in both `debug`
+settings: the method returns `.ok`, the answer is allowed by the abstract spec, the new table
+represents `Runs.apply a op` — `alloc_refines` (first fit; `FAILURE` only if no run of the head fits,
+table unchanged), `allocFromUnit_refines`, `free_refines` (coalesces exactly with the neighbours
+`mergeL` / `mergeR` name; returned size), `setUnc_refines`, `clrUnc_refines`.  `step_refines`,
+`history_refines`: every protocol-respecting concrete history (`CReach`) is an abstract history
+(`Runs.Reach`) and keeps `Abs`; corollaries `concrete_history_no_overlap`,
+`concrete_history_conservation`; `abs_reads`: `get_size` / `get_free` of the table are the abstract
+run length / ownership.  A concrete instance (`IntArrayFreeList::new(6, 3, 2)`, `exRel`) shows the
+hypotheses satisfiable.
+
+Not proved (what is left): (i) that `IntArrayFreeList::new(units, grain, heads)` /
+`RawMemoryFreeList` growth establish `Abs` with a `Fresh` abstract state *for all* parameters (only
+the instance above is checked; the constructors are covered by the differential); (ii) `abs` is a
+relation, not a function — the ghost `touched` and the owner of a free run (= the head whose list
+reaches it) are not fields of the table; (iii) unit numbers are unbounded `Int` in the model: the
+`i32` wrap is excluded by `units ≤ MAX_UNITS` in `Rel`, not modelled; (iv) `alloc_from_unit` on a
+run that is free on *another* head's list and on a non-run-start unit is outside the protocol
+(`cross_head_coalesce_double_allocates` shows what happens when heads are mixed).
 -/
 namespace Mmtk.Runs
 
@@ -457,13 +477,13 @@ open Mmtk.Runs in
 returns the start `s` of a free run `[s, e)` of head `k` that fits (an answer `Runs.Pre` allows) and the
 new table represents `apply a (alloc k s n e)`, or it returns `FAILURE`, the table is unchanged, and no
 run of head `k` fits. -/
-theorem alloc_refines' {H : Int} {t : Tab} {a : AS} {k n : Nat} (debug : Bool)
+theorem alloc_refines {H : Int} {t : Tab} {a : AS} {k n : Nat} (debug : Bool)
     (h : Abs H t a) (hk : (k : Int) < H) (hn : 1 ≤ n) :
     (∃ (s e : Nat) (t' : Tab), alloc debug t (hd k) (n : Int) = .ok (t', (s : Int)) ∧ Pre a (.alloc k s n e) ∧
       Abs H t' (Runs.apply a (.alloc k s n e))) ∨
     (alloc debug t (hd k) (n : Int) = .ok (t, FAILURE) ∧ ¬ CanAlloc a k n) := by
   obtain ⟨hH, L, hR⟩ := h
-  rcases alloc_refines debug hR (by rw [hH]; exact hk) hn with ⟨s, e, t', L', h1, h2, h3, h4⟩ | h1
+  rcases alloc_refines_rel debug hR (by rw [hH]; exact hk) hn with ⟨s, e, t', L', h1, h2, h3, h4⟩ | h1
   · exact Or.inl ⟨s, e, t', h1, h2, by rw [← hH, ← h4], L', h3⟩
   · exact Or.inr h1
 
@@ -471,13 +491,13 @@ open Mmtk.Runs in
 /-- **allocFromUnit_refines.** `alloc_from_unit(n, s)` on the start of a run `[s, e)`: if the run is
 free on the caller's head and fits it is taken (`Pre a (alloc k s n e)`), if it is allocated or too
 small the answer is `FAILURE` and the table is unchanged. -/
-theorem allocFromUnit_refines' {H : Int} {t : Tab} {a : AS} {k s e n : Nat} (debug : Bool)
+theorem allocFromUnit_refines {H : Int} {t : Tab} {a : AS} {k s e n : Nat} (debug : Bool)
     (h : Abs H t a) (hr : IsRun a s e) (hn : 1 ≤ n) :
     (Pre a (.alloc k s n e) → ∃ t', allocFromUnit debug t (hd k) (n : Int) (s : Int) = .ok (t', (s : Int)) ∧
       Abs H t' (Runs.apply a (.alloc k s n e))) ∧
     ((a.own s = none ∨ e < s + n) → allocFromUnit debug t (hd k) (n : Int) (s : Int) = .ok (t, FAILURE)) := by
   obtain ⟨hH, L, hR⟩ := h
-  obtain ⟨h1, h2⟩ := allocFromUnit_refines (k := k) debug hR hr hn
+  obtain ⟨h1, h2⟩ := allocFromUnit_refines_rel (k := k) debug hR hr hn
   refine ⟨fun hp => ?_, h2⟩
   obtain ⟨t', L', g1, g2, g3⟩ := h1 hp.2.1 hp.2.2.2
   exact ⟨t', g1, by rw [← hH, ← g3], L', g2⟩
@@ -488,30 +508,30 @@ open Mmtk.Runs in
 coalesced run `[l, r)` — where `l` is the start of the left neighbour iff `mergeL` (it is free and
 `s` carries no uncoalescable mark) and `r` the end of the right neighbour iff `mergeR`: the run
 coalesces exactly with those neighbours — and the new table represents `apply a (free k s e)`. -/
-theorem free_refines' {H : Int} {t : Tab} {a : AS} {k s e : Nat} (debug rcs : Bool)
+theorem free_refines {H : Int} {t : Tab} {a : AS} {k s e : Nat} (debug rcs : Bool)
     (h : Abs H t a) (hk : (k : Int) < H) (hp : Pre a (.free k s e)) :
     ∃ (t' : Tab) (l r : Nat), free debug t (hd k) (s : Int) rcs = .ok (t', if rcs then (r : Int) - l else (e : Int) - s) ∧
       Abs H t' (Runs.apply a (.free k s e)) ∧
       (if mergeL a s then IsRun a l s else l = s) ∧ (if mergeR a e then IsRun a e r else r = e) ∧
       IsRun (Runs.apply a (.free k s e)) l r := by
   obtain ⟨hH, L, hR⟩ := h
-  obtain ⟨t', L', l, r, h1, h2, h3, h4, h5⟩ := free_refines debug rcs hR (by rw [hH]; exact hk) hp
+  obtain ⟨t', L', l, r, h1, h2, h3, h4, h5⟩ := free_refines_rel debug rcs hR (by rw [hH]; exact hk) hp
   exact ⟨t', l, r, h1, ⟨by rw [← hH, ← h3], L', h2⟩, h4, h5, free_run_merged a hp.1 h4 h5⟩
 
 open Mmtk.Runs in
 /-- **setUnc_refines.** -/
-theorem setUnc_refines' {H : Int} {t : Tab} {a : AS} {u : Nat} (h : Abs H t a) (hu : u ≤ a.units) :
+theorem setUnc_refines {H : Int} {t : Tab} {a : AS} {u : Nat} (h : Abs H t a) (hu : u ≤ a.units) :
     ∃ t', setUncoalescable t (u : Int) = .ok t' ∧ Abs H t' (Runs.apply a (.setUnc u)) := by
   obtain ⟨hH, L, hR⟩ := h
-  obtain ⟨h1, h2⟩ := setUnc_refines hR hu
+  obtain ⟨h1, h2⟩ := setUnc_refines_rel hR hu
   exact ⟨_, h1, by simpa using hH, L, h2⟩
 
 open Mmtk.Runs in
 /-- **clrUnc_refines.** -/
-theorem clrUnc_refines' {H : Int} {t : Tab} {a : AS} {u : Nat} (h : Abs H t a) (hu : u ≤ a.units) :
+theorem clrUnc_refines {H : Int} {t : Tab} {a : AS} {u : Nat} (h : Abs H t a) (hu : u ≤ a.units) :
     ∃ t', clearUncoalescable t (u : Int) = .ok t' ∧ Abs H t' (Runs.apply a (.clrUnc u)) := by
   obtain ⟨hH, L, hR⟩ := h
-  obtain ⟨h1, h2⟩ := clrUnc_refines hR hu
+  obtain ⟨h1, h2⟩ := clrUnc_refines_rel hR hu
   exact ⟨_, h1, by simpa using hH, L, h2⟩
 
 /-- What the table says about a run of the abstract state it represents: `get_size` is its length,
@@ -568,7 +588,7 @@ theorem step_refines {debug : Bool} {H : Int} {t t' : Tab} {a a' : AS} (h : Abs 
   cases hs with
   | alloc k n s e hk hc hp =>
     refine ⟨?_, Or.inr ⟨_, hp, rfl⟩⟩
-    rcases alloc_refines' debug h hk hp.2.2.1 with ⟨s0, e0, t0, g1, g2, g3⟩ | ⟨g1, _⟩
+    rcases alloc_refines debug h hk hp.2.2.1 with ⟨s0, e0, t0, g1, g2, g3⟩ | ⟨g1, _⟩
     · rw [g1] at hc
       have e1 := ok_inj hc
       have ht : t0 = t' := congrArg Prod.fst e1
@@ -582,7 +602,7 @@ theorem step_refines {debug : Bool} {H : Int} {t t' : Tab} {a a' : AS} (h : Abs 
       simp [FAILURE] at this
   | allocFail k n hk hn hc =>
     refine ⟨?_, Or.inl rfl⟩
-    rcases alloc_refines' debug h hk hn with ⟨s0, e0, t0, g1, g2, g3⟩ | ⟨g1, _⟩
+    rcases alloc_refines debug h hk hn with ⟨s0, e0, t0, g1, g2, g3⟩ | ⟨g1, _⟩
     · rw [g1] at hc
       have := congrArg Prod.snd (ok_inj hc)
       simp [FAILURE] at this
@@ -592,35 +612,35 @@ theorem step_refines {debug : Bool} {H : Int} {t t' : Tab} {a a' : AS} (h : Abs 
       exact h
   | allocFromUnit k n s e hc hp =>
     refine ⟨?_, Or.inr ⟨_, hp, rfl⟩⟩
-    obtain ⟨t0, g1, g2⟩ := (allocFromUnit_refines' debug h hp.1 hp.2.2.1).1 hp
+    obtain ⟨t0, g1, g2⟩ := (allocFromUnit_refines debug h hp.1 hp.2.2.1).1 hp
     rw [g1] at hc
     have ht : t0 = t' := congrArg Prod.fst (ok_inj hc)
     subst ht
     exact g2
   | allocFromUnitFail k n s e hr hf hn hc =>
     refine ⟨?_, Or.inl rfl⟩
-    have g1 := (allocFromUnit_refines' (k := k) debug h hr hn).2 hf
+    have g1 := (allocFromUnit_refines (k := k) debug h hr hn).2 hf
     rw [g1] at hc
     have ht : t = t' := congrArg Prod.fst (ok_inj hc)
     subst ht
     exact h
   | free k s e rcs r hk hc hp =>
     refine ⟨?_, Or.inr ⟨_, hp, rfl⟩⟩
-    obtain ⟨t0, l, r0, g1, g2, _⟩ := free_refines' debug rcs h hk hp
+    obtain ⟨t0, l, r0, g1, g2, _⟩ := free_refines debug rcs h hk hp
     rw [g1] at hc
     have ht : t0 = t' := congrArg Prod.fst (ok_inj hc)
     subst ht
     exact g2
   | setUnc u hu hc =>
     refine ⟨?_, Or.inr ⟨.setUnc u, trivial, rfl⟩⟩
-    obtain ⟨t0, g1, g2⟩ := setUnc_refines' h hu
+    obtain ⟨t0, g1, g2⟩ := setUnc_refines h hu
     rw [g1] at hc
     have ht : t0 = t' := ok_inj hc
     subst ht
     exact g2
   | clrUnc u hu hp hc =>
     refine ⟨?_, Or.inr ⟨.clrUnc u, hp, rfl⟩⟩
-    obtain ⟨t0, g1, g2⟩ := clrUnc_refines' h hu
+    obtain ⟨t0, g1, g2⟩ := clrUnc_refines h hu
     rw [g1] at hc
     have ht : t0 = t' := ok_inj hc
     subst ht
@@ -786,14 +806,14 @@ theorem exAbs : Abs 2 exT0 exA0 := ⟨rfl, exL0, exRel⟩
 /-- `IntArrayFreeList::new(6, 3, 2)` (debug build) is well formed and represents the fresh abstract
 state (6 units, grain 3, everything on head 0's list); from it there is a two-step concrete history
 (allocate 2 units through head 0, free them again) that respects the protocol — the hypotheses of
-`alloc_refines'`, `free_refines'`, `step_refines`, `history_refines`, `concrete_history_no_overlap` and
+`alloc_refines`, `free_refines`, `step_refines`, `history_refines`, `concrete_history_no_overlap` and
 `concrete_history_conservation` hold for it. -/
 example : ∃ t0 a0, okOf (IntArray.new true 6 3 2) = some t0 ∧ Fresh a0 ∧ Abs 2 t0 a0 ∧ a0.units = 6 ∧
     ∃ (s e : Nat) (t1 t2 : Tab), Pre a0 (.alloc 0 s 2 e) ∧ Pre (Runs.apply a0 (.alloc 0 s 2 e)) (.free 0 s (s + 2)) ∧
       CReach true 2 t0 a0 t1 (Runs.apply a0 (.alloc 0 s 2 e)) ∧
       CReach true 2 t0 a0 t2 (Runs.apply (Runs.apply a0 (.alloc 0 s 2 e)) (.free 0 s (s + 2))) := by
   refine ⟨exT0, exA0, exT0_new, exFresh, exAbs, rfl, ?_⟩
-  rcases alloc_refines' (k := 0) (n := 2) true exAbs (by decide) (by decide) with ⟨s, e, t1, h1, h2, h3⟩ | ⟨_, h2⟩
+  rcases alloc_refines (k := 0) (n := 2) true exAbs (by decide) (by decide) with ⟨s, e, t1, h1, h2, h3⟩ | ⟨_, h2⟩
   · have hpre : Pre (Runs.apply exA0 (.alloc 0 s 2 e)) (.free 0 s (s + 2)) := by
       obtain ⟨m1, m2⟩ := alloc_makes_run exA0 0 s 2 e h2
       refine ⟨m1, m2 s (Nat.le_refl _) (by omega), ?_, ?_⟩
@@ -804,7 +824,7 @@ example : ∃ t0 a0, okOf (IntArray.new true 6 3 2) = some t0 ∧ Fresh a0 ∧ A
       · intro _
         have c : ¬ (s ≤ s + 2 ∧ s + 2 < s + 2) := by omega
         simp only [Runs.apply, c, if_false]; rfl
-    obtain ⟨t2, l, r, g1, _⟩ := free_refines' true true h3 (by decide) hpre
+    obtain ⟨t2, l, r, g1, _⟩ := free_refines true true h3 (by decide) hpre
     have s1 : CReach true 2 exT0 exA0 t1 (Runs.apply exA0 (.alloc 0 s 2 e)) :=
       .step .init (.alloc 0 2 s e (by decide) h1 h2)
     exact ⟨s, e, t1, t2, h2, hpre, s1, .step s1 (.free 0 s (s + 2) true _ (by decide) g1 hpre)⟩
